@@ -22,7 +22,7 @@ DUP_KINDS = ('on_action_complete', 'start_task', 'start_workflow',
              'run_action', 'run_action_lost')
 
 
-class DupScenario(wfscn.ProgScenario):
+class DupScenario(cmdscn.CmdScenario):
     def __init__(self, name, prog, dup_kinds=DUP_KINDS, max_dups=1,
                  wf_ex_id=True, **kw):
         super(DupScenario, self).__init__(name, prog, **kw)
@@ -63,7 +63,8 @@ class DupScenario(wfscn.ProgScenario):
 
     def extra_state(self):
         return [env.W.extra['dups'],
-                sorted(env.W.extra['redelivered_actions'].items())]
+                sorted(env.W.extra['redelivered_actions'].items()),
+                cmdscn.CmdScenario.extra_state(self)]
 
     def _track(self):
         """Remember eligible messages once they were delivered."""
@@ -74,9 +75,11 @@ class DupScenario(wfscn.ProgScenario):
 
     def externals(self):
         w = env.W
+        # operator commands that put tasks into the states in which a
+        # duplicate may arrive (paused actions / sub-workflows)
+        out = cmdscn.CmdScenario.externals(self) if self.menu else []
         if len(w.extra['dups']) >= self.max_dups:
-            return []
-        out = []
+            return out
         pending = set(m.seq for m in w.msgs)
         if 'run_action_lost' in self.dup_kinds:
             # the executor that took the request died before running it; the
@@ -203,6 +206,14 @@ class DupScenario(wfscn.ProgScenario):
         return v
 
     def check_terminal(self, snap, ctx):
+        if any(x['state'] == 'PAUSED'
+               for x in snap['workflow_executions_v2']) or any(
+                a['state'] == 'PAUSED'
+                for a in snap['action_executions_v2']):
+            # paused by the operator and not resumed in this run: nothing
+            # to compare at the end (the step oracles apply)
+            return json.dumps(wfscn.outcome_of(snap, with_ctx=False),
+                              sort_keys=True, default=str), []
         key, v = wfscn.WfScenario.check_terminal(self, snap, ctx)
         w = env.W
         models = [self.model()]
@@ -266,6 +277,39 @@ def programs():
     return P
 
 
+def stateful_programs():
+    """Programs whose tasks pass through PAUSED / DELAYED / WAITING states
+    while a duplicate can arrive: (program, results, scenario kwargs)."""
+    T, direct = wfgen.T, wfgen.direct
+    out = []
+    prog = direct({'a': T(action='async', **{'on-success': ['b']}),
+                   'b': T()})
+    out.append(('async_paused', prog, {'a': ['S'], 'b': ['S']},
+                dict(menu=['async_pause', 'async_resume'], max_cmds=2,
+                     sequences=[['async_pause', 'async_resume']])))
+    leaf = direct({'s1': T(key='s1')})
+    prog = direct({'a': T(workflow='sub', **{'on-success': ['b']}),
+                   'b': T()}, subs={'sub': leaf})
+    out.append(('subwf_paused', prog, {'s1': ['S'], 'b': ['S']},
+                dict(menu=['pause_sub', 'resume_sub'], max_cmds=2,
+                     sequences=[['pause_sub', 'resume_sub']],
+                     compare_ctx=False)))
+    out.append(('subwf', prog, {'s1': ['S'], 'b': ['S']},
+                dict(compare_ctx=False)))
+    prog = direct({'a': T(**{'on-success': ['b']}),
+                   'b': T(**{'wait-before': 1})})
+    out.append(('wait_before', prog, {'a': ['S'], 'b': ['S']}, {}))
+    prog = direct({'a': T(retry={'count': 1, 'delay': 1},
+                          **{'on-success': ['b']}), 'b': T()})
+    out.append(('retry_delay', prog, {'a': ['E', 'S'], 'b': ['S']}, {}))
+    prog = direct({'a': {'with-items': 'i in <% $.xs %>',
+                         'on-success': ['b']}, 'b': T()},
+                  input={'xs': ['i0', 'i1']})
+    out.append(('items2', prog, {'i0': ['S'], 'i1': ['S'], 'b': ['S']},
+                dict(compare_ctx=False)))
+    return out
+
+
 def scenarios(tier):
     quick = tier == 'quick'
     jobs = []
@@ -283,6 +327,14 @@ def scenarios(tier):
                                   max_dups=1 if quick else 2)
                 jobs.append((scn, 0 if quick else 1,
                              40 if quick else 1200, 1))
+    for pname, prog, res, kw in stateful_programs():
+        for kind in ('start_task', 'on_action_complete', 'start_workflow'):
+            if kind == 'start_workflow' and 'subwf' not in pname:
+                continue
+            scn = DupScenario('%s/dup-%s' % (pname, kind), prog,
+                              results=res, dup_kinds=[kind],
+                              max_dups=1 if quick else 2, **kw)
+            jobs.append((scn, 0 if quick else 1, 40 if quick else 1200, 1))
     return jobs
 
 
